@@ -424,6 +424,11 @@ class HDDMA(BaseSPC):
         """
         return self._additional_vars["test_type"]
 
+    def reset(self) -> None:
+        """Reset method."""
+        super().reset()
+        self.test_type.reset()
+
     def _update(self, value: Union[int, float], **kwargs: Any) -> None:
         self.num_instances += 1
 
@@ -741,6 +746,11 @@ class HDDMW(BaseSPC):
         :rtype: McDiarmidOneSidedTest
         """
         return self._additional_vars["test_type"]
+
+    def reset(self) -> None:
+        """Reset method."""
+        super().reset()
+        self.test_type.reset()
 
     def _update(self, value: Union[int, float], **kwargs: Any) -> None:
         self.num_instances += 1
